@@ -169,8 +169,10 @@ def modifies_known_mutable(obj: t.Any, attr: str) -> bool:
     False
     """
     for typespec, unsafe in _mutable_spec:
-        if isinstance(obj, typespec):
-            return attr in unsafe
+        # An object can match more than one row, a deque is also a
+        # MutableSequence.
+        if isinstance(obj, typespec) and attr in unsafe:
+            return True
     return False
 
 
